@@ -243,7 +243,7 @@ class Session:
             st, v = self.call(lambda: self.broker.holdings_weights())
             if st == "ok":
                 d = {self.sym(c): F(x) for c, x in v.items() if self.sym(c) != "USD"}
-                r.op("weights", kv(d), Fraction(1, 10**8))
+                r.op("weights", kv(d), Fraction(1, 10**8) * max([Fraction(1)] + [abs(x) for x in d.values()]))
                 o["weights"] = d
             else:
                 r.op("weights", st)
